@@ -139,6 +139,14 @@ def run(ctx):
                     for _, t in x.calls():
                         if t["call"]["name"] in names:
                             called.add(t["call"]["name"])
+                # the decision may be taken by the caller and handed down as a parameter (`serde_field_attr(field, is_empty, required)`)
+                for y in cg.bodies:
+                    if any(t["call"].get("id") == g.id for _, t in y.calls()):
+                        root = cg.body(y.d.get("root")) if y.kind == "closure" and y.d.get("root") else y
+                        for z in [root] + cg.closures_of(root):
+                            for _, t in z.calls():
+                                if t["call"]["name"] in names:
+                                    called.add(t["call"]["name"])
             return called
 
         def guard_verdict(k, strict, mentions):
